@@ -16,7 +16,7 @@
    conntrack state. *)
 From Coq Require Import List NArith Bool String.
 From Verif.Common Require Import Packet Ipt.
-From Verif.C40 Require Import Model.
+From Verif.C40 Require Import Model Shape.
 Import ListNotations.
 Open Scope N_scope.
 
@@ -148,13 +148,18 @@ Section Clauses.
     && (if fs_in_resp_pkt c p && negb (wl_iface c (pk_out p)) then not_dropped (hook raw e CH_OUTPUT p) else true).
 
   (* 2. unknown workload interface: dropped on INPUT and on FORWARD *)
-  Definition wildcard_hep_accepts (p : packet) : bool :=
-    ct_est p && match run_chain FUEL filter e CH_FROM_HEP_FWD p with RDone FAccept _ => true | _ => false end.
+  (* known deviation: an ESTABLISHED/RELATED packet is ACCEPTed by the conntrack rule at the head of an endpoint
+     chain that cali-FORWARD visits BEFORE the from-workload dispatch: the forward chain of a wildcard host
+     endpoint, or the to-workload chain when the output interface matches an EARLIER workload prefix *)
+  Definition accepts_in (ch : string) (p : packet) : bool :=
+    match run_chain FUEL filter e ch p with RDone FAccept _ => true | _ => false end.
+  Definition est_accepted_early (p : packet) : bool :=
+    ct_est p && (accepts_in CH_FROM_HEP_FWD p || accepts_in CH_TO_WL p).
   Definition unknown_ok (p : packet) : bool :=
     if wl_iface c (pk_in p) && negb (match lookup_wl wl (pk_in p) with Some _ => true | None => false end)
     then (infra_allowed c e p || (negb strict_pre && pre_policy_exempt c p)
           || verdict_eqb (hook filter e CH_INPUT p) VDrop)
-         && ((negb strict_est && wildcard_hep_accepts p)
+         && ((negb strict_est && est_accepted_early p)
              || verdict_eqb (hook filter e CH_FORWARD p) VDrop)
     else true.
 
@@ -197,7 +202,20 @@ Definition ok_case (k : case) : bool := forallb (probe_ok true true k) (k_probes
 (* ------------------------------------------------------------------ model == implementation (structural) *)
 Definition chain_agrees (impl : chains) (nb : string * list irule) : bool :=
   match lookup impl (fst nb) with Some b => rules_eqb b (snd nb) | None => false end.
+(* the shape conditions the theorems assume of the chains the static chains call hold of the real ones *)
+Definition shapes_ok (k : case) : bool :=
+  hep_disp_ok (k_raw k) CH_FROM_HEP CH_FS_IN && hep_disp_ok (k_raw k) CH_TO_HEP CH_FS_OUT
+  && hep_disp_ok (k_mangle k) CH_FROM_HEP CH_FS_IN
+  && hep_disp_ok (k_filter k) CH_FROM_HEP CH_FS_IN && hep_disp_ok (k_filter k) CH_TO_HEP CH_FS_OUT
+  && match lookup (k_filter k) CH_FROM_WL with
+     | Some b => wl_root_ok (k_filter k) b
+                 && forallb (fun nc => opt_eqb String.eqb (wl_target (k_filter k) b (fst nc)) (Some (snd nc))) (k_wl k)
+                 && forallb (fun n => match lookup_wl (k_wl k) n with Some _ => true | None => false end) (wl_names (k_filter k) b)
+     | None => false
+     end.
+
 Definition agrees (k : case) : bool :=
+  shapes_ok k &&
   forallb (chain_agrees (k_raw k)) (static_raw (k_cfg k))
   && forallb (chain_agrees (k_mangle k)) (static_mangle (k_cfg k))
   && forallb (chain_agrees (k_filter k)) (static_filter (k_cfg k))
@@ -207,4 +225,4 @@ Definition check_case (k : case) : bool * bool := (agrees k, ok_case k).
 
 (* classification of an oracle failure: does it vanish when ONLY the named deviation is excused? *)
 Definition classify_pre_policy (k : case) : bool * bool := (forallb (probe_ok false true k) (k_probes k), false).
-Definition classify_wildcard_est (k : case) : bool * bool := (forallb (probe_ok true false k) (k_probes k), false).
+Definition classify_est_early (k : case) : bool * bool := (forallb (probe_ok true false k) (k_probes k), false).
